@@ -324,8 +324,9 @@ def run_check(prop, tier, seed):
     if merged["violations"]:
         return 1
     if merged["errors"]:
-        for e in merged["errors"][:5]:
-            print("HARNESS-ERROR: " + e, file=sys.stderr)
+        for e in merged["errors"][:2]:
+            print("HARNESS-ERROR: " + e[-1500:], file=sys.stderr)
+        print("HARNESS-ERROR: %d shard errors in total" % len(merged["errors"]), file=sys.stderr)
         return 2
     if merged["evaluations"] == 0:
         print("HARNESS-ERROR: nothing was evaluated", file=sys.stderr)
